@@ -22,7 +22,7 @@ import par
 TECHNIQUE = 'abstract interpretation of pp.c with a scripted token source; differential comparison of the expanded token sequence with a reference C11 6.10.3 expander over a generated family of macro sets'
 
 PUNCT = {'(': 'TLPAREN', ')': 'TRPAREN', ',': 'TCOMMA', '+': 'TADD', '*': 'TMUL', ';': 'TSEMICOLON', '~': 'TBNOT', '#': 'THASH', '...': 'TELLIPSIS',
-         '-': 'TSUB', '=': 'TASSIGN', '##': 'THASHHASH', '{': 'TLBRACE', '}': 'TRBRACE', '<': 'TLESS', '>': 'TGREATER', '.': 'TPERIOD'}
+         '-': 'TSUB', '=': 'TASSIGN', '##': 'THASHHASH', '{': 'TLBRACE', '}': 'TRBRACE', '<': 'TLESS', '>': 'TGREATER', '.': 'TPERIOD', '[': 'TLBRACK', ']': 'TRBRACK'}
 
 
 def lex(text):
@@ -445,11 +445,18 @@ DEFS = '''#define A 1
 #define m(a) a(w)
 #define obj (7)
 #define EMPTY
+#define br(x) [x]
+#define bs(x) [ x]
+#define pm(a, b) a- b
+#define pl(a, b) a+b
+#define XS(x) S(x)
 '''
 USES = ['A;', 'B;', 'F(2);', 'F(A);', 'F(B);', 'G(1, F(2));', 'G((1,2), 3);', 'G(F(1), G(2, 3));', 'S(a  +   b);', 'S(\n a \n b);', 'S( x\ny );', 'S("x\\"y" + \'c\');',
         'S(A);', 'S(F(1));', 'T(A, B);', 'T( p q ,r\ns);', 'V(1,2);', 'V((1,2),F(3));', 'W(1, 2, 3);', 'W(A,p\nq);', 'R;', 'R R;', 'P(1);', 'F\n(3);', 'F  (3);', 'N(4);', 'N;', 'F ;',
         'E() 5;', 'F(F(F(1)));', 'F(\n1\n);', 'G(1\n,\n2);', 'h w);', 'h 5);', 'm(t);', 'obj + A;', 'F(EMPTY) ;', 'F();', 'G(,);', 't(t(t(A)));', 'F(t)(5);', 'S(,);', 'S();',
-        'A B F(1) G(2,3) S(z);', 'F((A));', 'F(G(1,2));', 't((w));', 'S(p   "a  b"   q);', 'S(\'"\');', "S('\\n');", "S('\\\\' + L'\\0');", 'S("a\\\\b" \'\\\'\');']
+        'A B F(1) G(2,3) S(z);', 'F((A));', 'F(G(1,2));', 't((w));', 'S(p   "a  b"   q);', 'S(\'"\');', "S('\\n');", "S('\\\\' + L'\\0');", 'S("a\\\\b" \'\\\'\');',
+        # state must not leak from one invocation into the next (empty arguments, stringification through a second level)
+        'br(); XS(br(1)); XS(br());', 'pl(,3); XS(pl(1,2)); pl(4,); XS(pl(5,6));', 'XS(br()); br(2); XS(br(2));', 'F(); F(1); XS(F(2));', 'E() br(E()) XS(br(E()));', 'bs(); XS(bs(1)); XS(bs());', 'XS(bs(1)); bs(); XS(bs(1));', 'pm(1,); XS(pm(1,2)); pm(,2); XS(pm(3,4));']
 BAD = [('F(1;', 'EOF'), ('G(1);', 'not enough'), ('F(1,2);', 'too many'), ('E(1);', 'too many')]
 
 REDEF = [
